@@ -3,9 +3,9 @@
 package worlds
 
 import (
-	"encoding/binary"
 	"context"
 	"crypto/tls"
+	"encoding/binary"
 	"fmt"
 	"net/netip"
 	"time"
@@ -213,6 +213,7 @@ func (t ntsSCIONTransport) rewrap(d *simnet.Datagram, payload []byte) []byte {
 	p := parseSCION(d.Payload)
 	return scRebuild(p, func(s *slayers.SCION, u *slayers.UDP, pld *[]byte) { *pld = payload })
 }
+
 // rewrapTrailing puts trailing behind the end of the UDP datagram, inside the SCION payload:
 // the UDP length covers payload only, the SCION payload length covers both.
 func (t ntsSCIONTransport) rewrapTrailing(d *simnet.Datagram, payload, trailing []byte) []byte {
